@@ -185,35 +185,38 @@ func runC14(c *eng.Ctx) {
 		}
 		ok := true
 		nret := 0
+		// (a) without passing the equal-configuration-id edge, every return gives a definitely false value
+		for n, vals := range g.ReachVals(eng.Query{FromEntry: true, AvoidEdge: g.FactEdge(confEq)}) {
+			ret, isR := n.Node.(*ast.ReturnStmt)
+			if !isR || len(ret.Results) != 1 {
+				continue
+			}
+			for v := range vals {
+				if g.EvalUnder(ret.Results[0], v) != -1 {
+					ok = false
+				}
+			}
+		}
+		// (b) a returned value that can be true is the comma-ok of the lookup by the event's webhook id
 		for _, n := range g.Nodes {
 			ret, isR := n.Node.(*ast.ReturnStmt)
 			if !isR || len(ret.Results) != 1 {
 				continue
 			}
-			if b, isC := constBool(info, ret.Results[0]); isC && !b {
-				continue
-			}
 			nret++
-			// a possibly-true return: needs equal configuration id and must be the comma-ok of a lookup by WebhookId
-			if !g.OnlyVia(n, nil, g.FactEdge(confEq)) {
-				ok = false
-			}
-			v, isV := eng.SelObj(info, ret.Results[0]).(*types.Var)
-			lookup := false
-			if isV {
-				eng.InspectNoLit(f.Decl.Body, func(x ast.Node) bool {
-					if as, isA := x.(*ast.AssignStmt); isA && len(as.Lhs) == 2 && len(as.Rhs) == 1 && eng.SelObj(info, as.Lhs[1]) == v {
-						if ix, isIx := ast.Unparen(as.Rhs[0]).(*ast.IndexExpr); isIx && eng.IsField(info, ix.X, links) {
-							if s, isS := ast.Unparen(ix.Index).(*ast.SelectorExpr); isS && s.Sel.Name == "WebhookId" {
-								lookup = true
-							}
-						}
+			for _, src := range valueSources(info, f.Decl.Body, ret.Results[0], 4) {
+				if b, isC := constBool(info, src); isC && !b {
+					continue
+				}
+				lookup := false
+				if ix, isIx := ast.Unparen(src).(*ast.IndexExpr); isIx && eng.IsField(info, ix.X, links) {
+					if s, isS := ast.Unparen(ix.Index).(*ast.SelectorExpr); isS && s.Sel.Name == "WebhookId" {
+						lookup = true
 					}
-					return true
-				})
-			}
-			if !lookup {
-				ok = false
+				}
+				if !lookup {
+					ok = false
+				}
 			}
 		}
 		r4.Check(ok && nret > 0, f.Key, f.Decl.Pos(), "configuration id equal && webhook id known", "CanHandleEvent does not require both the configuration id and the webhook id of the request to match: a request can be handed to a hook/binding that did not register that path")
